@@ -279,6 +279,7 @@ func runC09(c *Ctx) {
 	ruleProvidersInDeclOrder(c, "C09.12")
 	ruleProviderTypeResultsFresh(c, "C09.13")
 	ruleVarDeclByName(c, "C09.14")
+	ruleReleasePerDestinationSlot(c, "C09.15")
 	ruleTypeIdentity(c, "C09.8", genPkg)
 
 	// ---- C09.6 safety net in Build
